@@ -226,6 +226,47 @@ fn carc<T: El>() -> R {
     drop(h);
     ensure!(get(&MY_DROP_CALLS) == d0 + 2, "layout:carc_from_c_drop", "Drop must call the stored drop_fn once per handle");
     drop(retained);
+    // C -> Rust, a foreign arc that hands out ONE INSTANCE POINTER PER HANDLE (a handle table / per-owner cells): the clone
+    // holds the pointer its clone function returned, and every pointer handed out is released exactly once
+    thread_local! {
+        static CELLS: std::cell::RefCell<Vec<(usize, u32)>> = const { std::cell::RefCell::new(Vec::new()) };
+    }
+    unsafe extern "C" fn cell_clone<T: El>(p: *const c_void) -> *const c_void {
+        let v = (*(p as *const T)).val();
+        let b = Box::into_raw(Box::new(T::make(v)));
+        CELLS.with(|c| c.borrow_mut().push((b as usize, 0)));
+        b as *const c_void
+    }
+    unsafe extern "C" fn cell_drop(p: *const c_void) {
+        CELLS.with(|c| {
+            for e in c.borrow_mut().iter_mut() {
+                if e.0 == p as usize {
+                    e.1 += 1;
+                }
+            }
+        });
+    }
+    CELLS.with(|c| *c.borrow_mut() = Vec::new());
+    let first = Box::into_raw(Box::new(T::make(4)));
+    CELLS.with(|c| c.borrow_mut().push((first as usize, 0)));
+    let view = CArcView { instance: first as *const c_void, clone_fn: Some(cell_clone::<T>), drop_fn: Some(cell_drop) };
+    let h: CArc<T> = unsafe { std::mem::transmute_copy(&view) };
+    let h2 = h.clone();
+    let h3 = h2.clone();
+    let (v2, v3): (CArcView, CArcView) = unsafe { (std::mem::transmute_copy(&h2), std::mem::transmute_copy(&h3)) };
+    let cells: Vec<(usize, u32)> = CELLS.with(|c| c.borrow().clone());
+    ensure!(cells.len() == 3, "layout:carc_from_c_clone", "two clones of a C-assembled arc called its clone function {} time(s)", cells.len() - 1);
+    ensure!(v2.instance as usize == cells[1].0 && v3.instance as usize == cells[2].0, "layout:carc_clone_instance", "a cloned arc does not hold the instance pointer its clone function returned (clone holds {:#x} / {:#x}, clone_fn returned {:#x} / {:#x})", v2.instance as usize, v3.instance as usize, cells[1].0, cells[2].0);
+    ensure!(h2.as_ref().map(|r| r.val()) == Some(4) && h3.as_ref().map(|r| r.val()) == Some(4), "layout:carc_from_c", "Rust reads a different value through a cloned C-assembled arc");
+    drop(h);
+    drop(h3);
+    drop(h2);
+    let cells: Vec<(usize, u32)> = CELLS.with(|c| c.borrow().clone());
+    ensure!(cells.iter().all(|e| e.1 == 1), "layout:carc_release_per_instance", "every instance pointer handed out by the foreign arc must be released exactly once: release counts {:?}", cells.iter().map(|e| e.1).collect::<Vec<_>>());
+    for (p, _) in cells {
+        drop(unsafe { Box::from_raw(p as *mut T) });
+    }
+    CELLS.with(|c| *c.borrow_mut() = Vec::new());
     finish(&d, "carc")
 }
 
